@@ -14,6 +14,14 @@ def run(ctx):
                         simulate=num, depth=30, seed=ctx.seed, timeout=3000)
     res = harness(ctx, vh, ["c19", "--cases", cases, "--seed", str(ctx.seed),
                             "--conv", "200000" if t == "quick" else "3000000"], timeout=3400)
+    # several clients of one TCPServer share the register map (ModbusConc.tla)
+    r1 = vlib.run_tlc(ctx.sc, "ModbusConc", "MC_ModbusConc.cfg", timeout=600)
+    detail = detail + [{"cfg": "MC_ModbusConc.cfg", "distinct": r1.distinct}]
+    rc = harness(ctx, vh, ["c19conc", "--duration", "3s" if t == "quick" else "60s"], timeout=600)
+    res["failures"] = list(res["failures"]) + list(rc["failures"])
+    res["evaluations"] += rc["evaluations"]
+    if isinstance(res.get("extra"), dict):
+        res["extra"]["concurrent_clients"] = rc.get("extra")
     cov = {
         "states": states, "transitions": trans, "role1": detail,
         "traces_validated_against_impl": res["traces"],
